@@ -30,7 +30,7 @@ pub struct Net {
     pub default_latency: u64,
     // (due, seq) -> (from, to, msg)
     pub inflight: BTreeMap<(u64, u64), (Addr, Addr, Message)>,
-    pub inboxes: HashMap<Addr, Vec<(Addr, Message)>>,
+    pub inboxes: HashMap<Addr, Vec<(Addr, Message, bool)>>,
     pub dead: Vec<Addr>,
     pub sent_total: u64,
     pub dropped_total: u64,
@@ -91,12 +91,12 @@ impl Net {
             if self.dead.contains(&to) || self.dead.contains(&from) {
                 continue;
             }
-            self.inboxes.entry(to).or_default().push((from, msg));
+            self.inboxes.entry(to).or_default().push((from, msg, false));
         }
     }
 
     pub fn inject(&mut self, from: Addr, to: Addr, msg: Message) {
-        self.inboxes.entry(to).or_default().push((from, msg));
+        self.inboxes.entry(to).or_default().push((from, msg, true));
     }
 }
 
@@ -120,11 +120,12 @@ impl NonBlockingSocket<Addr> for SimSocket {
             .map(std::mem::take)
             .unwrap_or_default();
         let mut seen = self.last_rx_from.borrow_mut();
-        for (a, _) in &v {
-            if !seen.contains(a) {
+        for (a, _, injected) in &v {
+            // injected (forged) packets do not count as traffic from the peer for the timer monitor
+            if !injected && !seen.contains(a) {
                 seen.push(*a);
             }
         }
-        v
+        v.into_iter().map(|(a, m, _)| (a, m)).collect()
     }
 }
